@@ -14,6 +14,7 @@ import (
 	"fmt"
 	"strconv"
 	"sync"
+	"unicode/utf8"
 
 	"github.com/tsuna/gohbase/hrpc"
 	"github.com/tsuna/gohbase/pb"
@@ -148,6 +149,11 @@ func ParseRegionInfo(metaRow *hrpc.Result) (hrpc.RegionInfo, string, error) {
 			value := cell.Value
 			if len(value) == 0 {
 				continue // Empty during NSRE.
+			}
+			if !utf8.Valid(value) {
+				// a host:port is text. The address is also used as a
+				// metric label, which panics on anything but UTF-8.
+				return nil, "", fmt.Errorf("malformed server location in %v", metaRow)
 			}
 			addr = string(value)
 		default:
